@@ -54,6 +54,7 @@ type Spec struct {
 	TargetGL  uint64 `json:"target_gl"` // packer target gas limit (0 = keep the parent's)
 	GenesisGL uint64 `json:"genesis_gl"`
 	MBP       uint64 `json:"mbp"` // max block proposers param (0 = default)
+	Transition bool  `json:"transition"` // HAYABUSA inside the chain: staker txs queue validations, PoA -> PoS at an epoch boundary
 	Underfund int    `json:"underfunded"` // the last k authority nodes start with an endorsor 1 wei below the endorsement
 }
 
@@ -126,6 +127,16 @@ func GenSpec(r *hx.Rand, blocks int) *Spec {
 	}
 	if !s.PoS && s.NAuth >= 2 && r.Chance(1, 2) {
 		s.Underfund = r.Range(1, (s.NAuth+1)/2)
+	}
+	if r.Chance(1, 5) {
+		// PoA -> PoS inside the chain: every earlier fork at 0, HAYABUSA early, the proposer limit = the number of
+		// authority nodes (the transition needs 2/3 of it queued), validations queued through real transactions
+		n := r.Range(1, 5)
+		*s = Spec{Seed: s.Seed, Blocks: blocks, NAuth: n, Transition: true, HAYABUSA: uint32(r.Range(1, 4)), MBP: uint64(n),
+			GenesisGL: 10_000_000, TargetGL: []uint64{0, 40_000_000}[r.Intn(2)]}
+		if n >= 3 && r.Bool() {
+			s.Underfund = 1
+		}
 	}
 	return s
 }
@@ -356,6 +367,13 @@ func mustInput(abiName string, args ...any) (addr thor.Address, data []byte) {
 		m, _ := builtin.Authority.ABI.MethodByName("revoke")
 		data, err = m.EncodeInput(args...)
 		addr = builtin.Authority.Address
+	case "staker.addValidation", "staker.setBeneficiary", "staker.increaseStake", "staker.decreaseStake", "staker.signalExit":
+		m, ok := builtin.Staker.ABI.MethodByName(strings.TrimPrefix(abiName, "staker."))
+		if !ok {
+			panic("staker method " + abiName)
+		}
+		data, err = m.EncodeInput(args...)
+		addr = builtin.Staker.Address
 	case "params.set":
 		m, _ := builtin.Params.ABI.MethodByName("set")
 		data, err = m.EncodeInput(args...)
@@ -383,6 +401,7 @@ func (c *Chain) GenTxs(num uint32) []Cand {
 	}
 	user := func() Acct { return c.Users[r.Intn(len(c.Users))] }
 	typedOK := num >= c.Fork.GALACTICA
+	out = append(out, c.stakerTxs(num)...)
 	for i := 0; i < n; i++ {
 		from := user()
 		o := TxOpt{Coef: uint8(r.Intn(256))}
@@ -748,4 +767,48 @@ func (c *Chain) Poor() Acct { return c.poor }
 // RevertingClause is a call that reverts in the VM: a VTHO transfer above any balance.
 func (c *Chain) RevertingClause(to thor.Address) (thor.Address, []byte) {
 	return mustInput("energy.transfer", to, bigE18(1_000_000_000_000))
+}
+
+// stakerTxs: transactions against the staker builtin once its code is deployed (block HAYABUSA): endorsors queue their
+// master's validation (this is what drives the PoA -> PoS transition), set / change the beneficiary, move stake.
+func (c *Chain) stakerTxs(num uint32) []Cand {
+	if c.Fork.HAYABUSA == Never || num < c.Fork.HAYABUSA || (num == c.Fork.HAYABUSA && num > 0 && !c.Spec.PoS) {
+		return nil
+	}
+	r := c.R
+	var out []Cand
+	st := c.Stater.NewState(c.Best.Root())
+	stk := builtin.Staker.Native(st)
+	call := func(from Acct, name string, value *big.Int, args ...any) *tx.Transaction {
+		a, d := mustInput(name, args...)
+		cl := tx.NewClause(&a).WithData(d)
+		if value != nil {
+			cl = cl.WithValue(value)
+		}
+		return c.MkTx(from, []*tx.Clause{cl}, num, TxOpt{Gas: 1_500_000, Typed: num >= c.Fork.GALACTICA && r.Bool()})
+	}
+	for i := range c.Masters {
+		v, err := stk.GetValidation(c.Masters[i].Addr)
+		known := err == nil && v != nil
+		switch {
+		case !known:
+			if r.Chance(1, 2) {
+				out = append(out, Cand{call(c.Endors[i], "staker.addValidation", bigE18(uint64(r.Range(25_000_000, 60_000_000))),
+					c.Masters[i].Addr, thor.LowStakingPeriod()), "staker-add-validation"})
+			}
+		case r.Chance(1, 4):
+			b := c.Users[r.Intn(len(c.Users))].Addr
+			if r.Chance(1, 5) {
+				b = thor.Address{}
+			}
+			out = append(out, Cand{call(c.Endors[i], "staker.setBeneficiary", nil, c.Masters[i].Addr, b), "staker-set-beneficiary"})
+		case r.Chance(1, 6):
+			out = append(out, Cand{call(c.Endors[i], "staker.increaseStake", bigE18(uint64(r.Range(1, 5_000_000))), c.Masters[i].Addr), "staker-increase-stake"})
+		case r.Chance(1, 10):
+			out = append(out, Cand{call(c.Endors[i], "staker.decreaseStake", nil, c.Masters[i].Addr, bigE18(uint64(r.Range(1, 1_000_000)))), "staker-decrease-stake"})
+		case r.Chance(1, 40):
+			out = append(out, Cand{call(c.Endors[i], "staker.signalExit", nil, c.Masters[i].Addr), "staker-signal-exit"})
+		}
+	}
+	return out
 }
